@@ -96,6 +96,25 @@ def g_gc_regular(s):
     return name
 
 
+_POOL_TIMEOUT_S = 3600    # a dead worker must not hang the driver for ever
+
+
+def _safe(fn):
+    """Pool workers must only raise picklable exceptions (a ConductorError with keyword-only
+    constructor arguments cannot be unpickled in the parent and would hang the pool)."""
+    import functools
+    import traceback
+
+    @functools.wraps(fn)
+    def wrapper(job):
+        try:
+            return fn(job)
+        except BaseException:
+            raise RuntimeError("harness worker %s crashed on job %r:\n%s"
+                               % (fn.__name__, job, traceback.format_exc())) from None
+    return wrapper
+
+
 # --------------------------------------------------------------------------- accumulator
 def _size(inp):
     text = json.dumps(inp, default=str, sort_keys=True)
@@ -185,12 +204,17 @@ def _check_strings(strings):
         # ---- is_name_valid
         a = accs["name"]
         exp = g_name(s)
-        obs = TaskIdentifier.is_name_valid(s)
+        try:
+            obs = TaskIdentifier.is_name_valid(s)
+        except Exception as ex:
+            obs = "raises %s" % type(ex).__name__
         a.ev += 1
         if exp or g_name(s[:-1]) or g_name(s[1:]):
             a.nt += 1
         a.sample({"s": s}) if exp else None
-        if bool(obs) != exp or not isinstance(obs, bool):
+        if isinstance(obs, str):
+            a.fail("iff_grammar", "is_name_valid-raises", {"s": s}, exp, obs)
+        elif bool(obs) != exp or not isinstance(obs, bool):
             cls = _newline_class(s, g_name) if obs else None
             a.fail("iff_grammar", cls or ("accepts-non-name" if obs else "rejects-name"),
                    {"s": s}, exp, obs)
@@ -302,6 +326,7 @@ def _check_strings(strings):
     return accs
 
 
+@_safe
 def _strings_shard(args):
     length, first = args
     if length == 0:
@@ -311,6 +336,7 @@ def _strings_shard(args):
     return _check_strings(strings)
 
 
+@_safe
 def _extra_shard(_):
     return _check_strings(EXTRA_STRINGS)
 
@@ -449,6 +475,7 @@ def _gc_strings(tier):
     return sorted(out)
 
 
+@_safe
 def _gc_shard(strings):
     import conductor.cli.gc as gc
     a = Acc()
@@ -490,7 +517,6 @@ def _gc_shard(strings):
 
 # --------------------------------------------------------------------------- driver
 def run(tier, seed):
-    t_start = time.time()
     max_len = 5 if tier == "quick" else 6
     shards = [(0, "")] + [(n, c) for n in range(1, max_len + 1) for c in ALPHABET]
     gc_strings = _gc_strings(tier)
@@ -507,11 +533,11 @@ def run(tier, seed):
         string_jobs = pool.map_async(_strings_shard, sorted(shards, key=lambda x: -x[0]), chunksize=1)
         extra_job = pool.map_async(_extra_shard, [0])
         gc_job = pool.map_async(_gc_shard, gc_chunks, chunksize=1)
-        for accs in string_jobs.get() + extra_job.get():
+        for accs in string_jobs.get(_POOL_TIMEOUT_S) + extra_job.get(_POOL_TIMEOUT_S):
             for k, acc in accs.items():
                 totals[k].merge(acc)
         walls["strings"] = time.time() - t0
-        for acc in gc_job.get():
+        for acc in gc_job.get(_POOL_TIMEOUT_S):
             totals["gc"].merge(acc)
         walls["gc"] = time.time() - t0
 
@@ -569,7 +595,6 @@ def run(tier, seed):
             "distinct strings; non-trivial = a task / experiment directory name, or one after deleting the "
             "first or last character", walls["gc"]),
     ]
-    _ = t_start
     return out
 
 
